@@ -1,5 +1,6 @@
 import Driver.Parse
 import FpVerif.Model.Sched
+import FpVerif.Spec.SchedTrace
 /-! Driver for the write-scheduler model: `sched kind=.. ops=.. [@@ observed tokens]` -/
 namespace Fp.Driver
 open Fp Fp.Sched
@@ -85,5 +86,68 @@ def schedRunRR (toks : List String) : Option String := do
     | none => pure ()
   out := out.push s!"conn={s.cwin}"
   pure (" ".intercalate out.toList)
+
+/-- `schedtrace kind=.. ops=.. @@ <observed tokens>`: the TRACE specification (Fp.Spec.SchedTrace) applied to what the
+implementation answered; echoes the observation when every answer is admissible -/
+def schedTrace (toks : List String) : Option String := do
+  let i := toks.findIdx? (· == "@@")
+  let (op, obs) := match i with | some k => (toks.take k, toks.drop (k + 1)) | none => (toks, [])
+  let ops := dashList (← kv op "ops") ";"
+  let echo := " ".intercalate obs
+  let parseObs (w : String) : Spec.SchedTrace.Obs :=
+    if w == "none" then .none_
+    else if w.startsWith "ctl:" then match (w.drop 4).toString.toNat? with | some u => .ctl u | none => .other w
+    else if w.startsWith "s" then
+      match (w.drop 1).toString.splitOn ":" with
+      | [a, b] =>
+        match a.toNat?, (if b.startsWith "f" then (b.drop 1).toString.toNat? else none) with
+        | some sid, some u => .frame sid u
+        | _, _ => .other w
+      | [a, b, c] =>
+        match a.toNat?, (if b.startsWith "d" then (b.drop 1).toString.toNat? else none) with
+        | some sid, some n => .data sid n (c == "1")
+        | _, _ => .other w
+      | _ => .other w
+    else .other w
+  let mut t : Spec.SchedTrace.TSt := {}
+  let mut uid := 0
+  let mut obsL := obs
+  let mut step := 0
+  for o in ops do
+    step := step + 1
+    let body1 := (o.drop 1).toString
+    let body2 := (o.drop 2).toString
+    let mut top : Option Spec.SchedTrace.TOp := none
+    if o.startsWith "o" then top := some (.open_ (← body1.toNat?))
+    else if o.startsWith "c" then top := some (.close (← body1.toNat?))
+    else if o.startsWith "a" then top := some .adjust
+    else if o.startsWith "pd" then
+      match body2.splitOn "." with
+      | [a, b, c] => uid := uid + 1; top := some (.pushData uid (← a.toNat?) (← b.toNat?) (c == "1"))
+      | _ => none
+    else if o.startsWith "ph" then uid := uid + 1; top := some (.pushFrame uid (← body2.toNat?))
+    else if o.startsWith "pc" then uid := uid + 1; top := some (.pushCtl uid)
+    else if o.startsWith "pr" then uid := uid + 1; top := some (.pushCtlFor uid (← body2.toNat?))
+    else if o.startsWith "w" then
+      match body1.splitOn "." with
+      | [a, b] => top := some (.addWin (← a.toNat?) (← intOf b))
+      | _ => none
+    else if o.startsWith "W" then top := some (.addConn (← intOf body1))
+    else if o.startsWith "m" then top := some (.setMax (← intOf body1))
+    else if o == "x" then top := some .pop
+    else none
+    let tp ← top
+    let ob : Option Spec.SchedTrace.Obs := match tp with
+      | .pop => obsL.head?.map parseObs
+      | _ => none
+    -- (a panic raised by an operation other than Pop shows up as the next Pop's token and is judged there)
+    match tp with
+    | .pop => obsL := obsL.drop 1
+    | _ => pure ()
+    match Spec.SchedTrace.traceStep t tp ob with
+    | .ok t' => t := t'
+    | .stop => return echo
+    | .bad why => return s!"TRACE-VIOLATION at operation {step} ({o}): {why}"
+  pure echo
 
 end Fp.Driver
